@@ -5,6 +5,7 @@ package main
 import (
 	"flag"
 	"fmt"
+	"math/rand"
 	"strconv"
 	"strings"
 	"time"
@@ -29,8 +30,30 @@ func cmdDates(args []string) error {
 		var formats []hermes.DateFormat
 		cent := 0
 		y0, y1 := 1901, 2099
-		if g == "L" {
+		jumps := 0
+		var jr *rand.Rand
+		if strings.HasPrefix(g, "L") {
+			// L = long formats; L<c> = long formats with century split c (documented as not used on long formats:
+			// every date of the range must convert as without it)
 			formats = []hermes.DateFormat{hermes.DateDElong, hermes.DateENlong}
+			if len(g) > 1 {
+				cent, err = strconv.Atoi(g[1:])
+				if err != nil {
+					return err
+				}
+			}
+		} else if strings.HasPrefix(g, "J") {
+			// J<seed>: all four formats (short ones with split 50: 1950..2049), ONE converter instance per variant called
+			// for dates in arbitrary order: single days on, jumps over several turns of the year, jumps back, repeats
+			formats = []hermes.DateFormat{hermes.DateDElong, hermes.DateENlong, hermes.DateDEshort, hermes.DateENshort}
+			sd, e := strconv.Atoi(g[1:])
+			if e != nil {
+				return e
+			}
+			jr = rand.New(rand.NewSource(int64(sd)*7919 + 13))
+			jumps = 12000
+			cent = 50
+			y0, y1 = 1950, 2049
 		} else if strings.HasPrefix(g, "S") {
 			formats = []hermes.DateFormat{hermes.DateDEshort, hermes.DateENshort}
 			cent, err = strconv.Atoi(g[1:])
@@ -60,7 +83,47 @@ func cmdDates(args []string) error {
 			}
 		}
 		w.Write(map[string]interface{}{"ev": "seg", "y0": y0, "group": g})
-		for t := time.Date(y0, 1, 1, 12, 0, 0, 0, time.UTC); t.Year() <= y1; t = t.AddDate(0, 0, 1) {
+		evName := "d"
+		t := time.Date(y0, 1, 1, 12, 0, 0, 0, time.UTC)
+		step := 0
+		for ; ; t = t.AddDate(0, 0, 1) {
+			if jumps == 0 && t.Year() > y1 {
+				break
+			}
+			if jumps > 0 {
+				// the next date of the jump sequence
+				evName = "j"
+				if step >= jumps {
+					break
+				}
+				if step > 0 {
+					var dd int
+					switch jr.Intn(8) {
+					case 0, 1, 2:
+						dd = 1
+					case 3:
+						dd = 0
+					case 4:
+						dd = 1 + jr.Intn(400)
+					case 5:
+						dd = 700 + jr.Intn(3000) // over two or more turns of the year
+					case 6:
+						dd = -(1 + jr.Intn(3000))
+					default:
+						dd = jr.Intn(36000) - 18000
+					}
+					t = t.AddDate(0, 0, dd-1)
+				} else {
+					t = time.Date(1975+jr.Intn(30), time.Month(1+jr.Intn(12)), 1+jr.Intn(28), 12, 0, 0, 0, time.UTC)
+				}
+				for t.Year() < y0 {
+					t = t.AddDate(5, 0, 0)
+				}
+				for t.Year() > y1 {
+					t = t.AddDate(-5, 0, 0)
+				}
+				step++
+			}
 			y, m, d := t.Year(), int(t.Month()), t.Day()
 			rs := make([][]int, 0, len(vs))
 			for _, v := range vs {
@@ -77,9 +140,28 @@ func cmdDates(args []string) error {
 				} else {
 					txt = fmt.Sprintf("%02d%s%02d%s%04d", a, v.sep, b, v.sep, y)
 				}
-				doy, n := v.datum(txt)
-				ky, km, kd := hermes.KalenderDate(n)
-				back := v.kal(n)
+				// a run-time panic of a conversion is a wrong answer for that date, not the end of the sweep
+				doy, n, ky, km, kd, back := -999, -999, -999, -999, -999, ""
+				func() {
+					defer func() { recover() }()
+					doy, n = v.datum(txt)
+				}()
+				if n == -999 {
+					// text -> number failed: the way back is driven with the calendar's own day number
+					n = int(t.Sub(time.Date(1900, 12, 31, 12, 0, 0, 0, time.UTC)).Hours()/24 + 0.5)
+					doy = -999
+				}
+				func() {
+					defer func() { recover() }()
+					ky, km, kd = hermes.KalenderDate(n)
+				}()
+				func() {
+					defer func() { recover() }()
+					back = v.kal(n)
+				}()
+				if doy == -999 {
+					n = -999
+				}
 				t1, t2, t3 := splitDate(back, v.sep)
 				s := 0
 				if v.sep != "" {
@@ -87,7 +169,7 @@ func cmdDates(args []string) error {
 				}
 				rs = append(rs, []int{int(v.f), s, cent, n, doy, ky, km, kd, t1, t2, t3, len(back)})
 			}
-			w.Write(map[string]interface{}{"ev": "d", "y": y, "m": m, "d": d, "r": rs})
+			w.Write(map[string]interface{}{"ev": evName, "y": y, "m": m, "d": d, "r": rs})
 		}
 	}
 	return nil
